@@ -321,3 +321,105 @@ def run_linestring(rep, F, D_int, tier, rule="R2.10"):
         if res and not any(kind == "bad" for kind, _, _ in rec.log):
             n_ok += 1
     rep.floor(rule, "line-string intersects tables", n_ok, 12)
+
+
+
+# ---------------------------------------------------------------- Contains between Line and small LineStrings (R2.11)
+def _on_polyline(p, segs):
+    from fractions import Fraction
+    for a, b in segs:
+        # p = (x, y) rational; on segment a-b ?
+        cross = (b["x"] - a["x"]) * (p[1] - a["y"]) - (b["y"] - a["y"]) * (p[0] - a["x"])
+        if cross != 0:
+            continue
+        if min(a["x"], b["x"]) <= p[0] <= max(a["x"], b["x"]) and min(a["y"], b["y"]) <= p[1] <= max(a["y"], b["y"]):
+            return True
+    return False
+
+
+def ref_contains_linear(ka, a, kb, b):
+    """DE-9IM contains (T*****FF*) for one-dimensional operands given as coordinate lists (a Line is a two-element list)."""
+    from fractions import Fraction
+
+    def coords(k, v):
+        return [v["start"], v["end"]] if k == "Line" else list(v)
+    ca, cb = coords(ka, a), coords(kb, b)
+    sa = [(ca[i], ca[i + 1]) for i in range(len(ca) - 1)]
+    sb = [(cb[i], cb[i + 1]) for i in range(len(cb) - 1)]
+    pts_a = ca
+    # B inside A as point sets
+    for s0, s1 in sb:
+        if s0 == s1:
+            if not _on_polyline((Fraction(s0["x"]), Fraction(s0["y"])), sa):
+                return False
+            continue
+        ts = {Fraction(0), Fraction(1)}
+        dx, dy = s1["x"] - s0["x"], s1["y"] - s0["y"]
+        for v in pts_a:
+            cr = dx * (v["y"] - s0["y"]) - dy * (v["x"] - s0["x"])
+            if cr == 0:
+                t = Fraction((v["x"] - s0["x"]) * dx + (v["y"] - s0["y"]) * dy, dx * dx + dy * dy)
+                if 0 < t < 1:
+                    ts.add(t)
+        ts = sorted(ts)
+        for t in ts + [(ts[i] + ts[i + 1]) / 2 for i in range(len(ts) - 1)]:
+            if not _on_polyline((s0["x"] + t * dx, s0["y"] + t * dy), sa):
+                return False
+    distinct_b = [c for i, c in enumerate(cb) if c not in cb[:i]]
+    if len(distinct_b) > 1:
+        return True          # a curve inside A meets A's interior (A's boundary is finite)
+    # B is a single point: it must lie in the interior of A (mod-2 boundary: the end points of an open curve)
+    pt = distinct_b[0]
+    distinct_a = [c for i, c in enumerate(ca) if c not in ca[:i]]
+    if len(distinct_a) == 1:
+        return distinct_a[0] == pt
+    boundary = [] if ca[0] == ca[-1] else [ca[0], ca[-1]]
+    return pt not in boundary
+
+
+def run_linear_contains(rep, F, D_con, tier, rule="R2.11"):
+    """Contains between a Line and LineStrings of 2 / 3 coordinates (exact unrolling): Line >= LineString(2, 3), LineString(2) >= Line,
+    LineString(2) >= LineString(2): the decision table of the selected impl agrees with the point-set definition (every point of b on a, and
+    their interiors meet) on every witness of a 3x3 grid.  Larger line strings are loop kernels beyond a bounded table (not decided)."""
+    rep.rule(rule, "Contains between Line and LineStrings of 2 / 3 coordinates (exact unrolling): the decision table agrees with `every point of b lies on a and the interiors meet` on every grid witness")
+    GTY = "geo_types::geometry::"
+    LS = GTY + "line_string::LineString"
+
+    def ls_arg(n, tag):
+        return ("&", ("adt", LS, "LineString", (("call", "vec!", (("array", tuple(("opaque", "%s%d" % (tag, i)) for i in range(n))),)),)))
+    line_vals = [{"start": s_, "end": e_} for s_, e_ in itertools.product(PTS3, repeat=2)]
+    sub = [C(0, 0), C(1, 1), C(2, 2), C(2, 0), C(1, 0)]
+
+    def ls_values(n):
+        return [list(cs) for cs in itertools.product(sub, repeat=n)]
+    n_ok = 0
+    for a, na, b, nb in (("Line", None, "LineString", 2), ("Line", None, "LineString", 3), ("LineString", 2, "Line", None), ("LineString", 2, "LineString", 2)):
+        inst, fn = D_con.impl_instance(a, b)
+        key = "contains:%s%s-%s%s" % (a, "/%d" % na if na else "", b, "/%d" % nb if nb else "")
+        if fn is None:
+            continue
+        args = [ls_arg(na, "p") if na else ("arg", 1), ls_arg(nb, "q") if nb else ("arg", 2)]
+
+        def env_of(va, vb, na=na, nb=nb):
+            env = {}
+            if na:
+                env.update({("opaque", "p%d" % i): va[i] for i in range(na)})
+            else:
+                env[("arg", 1)] = va
+            if nb:
+                env.update({("opaque", "q%d" % i): vb[i] for i in range(nb)})
+            else:
+                env[("arg", 2)] = vb
+            return env
+        va_list = ls_values(na) if na else line_vals
+        vb_list = ls_values(nb) if nb else line_vals
+        rec = Recorder()
+        res = tabulate(rec, F, D_con, inst, fn, key, "LineString" if na else a, "LineString" if nb else b, ref_contains_linear, rule=rule, args=args, env_of=env_of,
+                       va_list=va_list, vb_list=vb_list, calls=LS_CALLS)
+        for kind, a_, kw in rec.log:
+            getattr(rep, kind)(*a_, **kw)
+        for k_, v_ in rec.info.items():
+            rep.info.setdefault(k_, []).extend(v_)
+        if res and not any(kind == "bad" for kind, _, _ in rec.log):
+            n_ok += 1
+    rep.floor(rule, "linear contains tables", n_ok, 4)
